@@ -283,8 +283,9 @@ def run(ctx):
             if cr["verdict"] == "ok-crash":
                 fams.add("numbering_nil_deref")
             if fails:
-                explained = fams & set(spec["known"])
-                if explained and explained <= listed_families | set(spec["known"]) and (explained & listed_families):
+                # an output whose declarations clash cannot be read reliably by the facts extractor
+                explained = fams & (set(spec["known"]) | {"method_name_clash", "mock_name_twice"})
+                if explained and (explained & listed_families):
                     for fam in explained & listed_families:
                         known_hits.setdefault(fam, []).append(cr["case"]["id"])
                 else:
